@@ -96,9 +96,15 @@ struct Encoding<
   }
 
   static constexpr std::size_t Size(const Type& value) {
+    // Never walk beyond the array: a size member that exceeds the capacity is
+    // rejected by WritePayload.
+    std::size_t size = static_cast<std::size_t>(value.size());
+    if (!IsUnbounded && size > Length)
+      size = Length;
+
     std::size_t element_size_sum = 0;
-    for (const ValueType& element : value)
-      element_size_sum += Encoding<ValueType>::Size(element);
+    for (std::size_t i = 0; i < size; i++)
+      element_size_sum += Encoding<ValueType>::Size(value[i]);
 
     return BaseEncodingSize(Prefix(value)) +
            Encoding<SizeType>::Size(value.size()) + element_size_sum;
